@@ -75,9 +75,11 @@ CHECKS = {
     "C18": dict(engine="lexmc", category="fault_enumeration", design_ref="DESIGN.md §4 C18",
                 technique="exhaustive enumeration of short byte strings and of all truncations of the shipped examples through lexer+parser, in Release and under ASan/UBSan, with per-case watchdog",
                 text="Every byte string up to length 5 (6) over a 14-symbol alphabet covering each lexer branch, every prefix of every example "
-                     "file, and the valid C16 programs, through the reader in Release and Debug+ASan+UBSan: only 'accepted' or "
-                     "'std::exception within the time limit' are allowed.",
-                note="Solver-level and network-level runs under the sanitizers are added as E3 is built; leaks on rejected input are not judged."),
+                     "file, every byte string up to length 5 (6) over a 16-symbol JSON alphabet through json::from_json, and the valid C16 "
+                     "programs, through the reader in Release and Debug+ASan+UBSan: only 'accepted' or 'std::exception within the time "
+                     "limit' are allowed. Every valid program of the families of C01-C06, C16, C17 goes through read()+solve() under the "
+                     "sanitizers, and the API histories of C07 (thorough: C08, C11, C12, C13) run in the sanitizer build.",
+                note="Leaks are not judged (LeakSanitizer off); ASan cannot see heap errors in the network harnesses, which use the deterministic arena."),
     "C01": dict(engine="progrun", category="exploration", design_ref="DESIGN.md §4 C01",
                 technique="bounded exhaustive enumeration of RIDDLE programs (all statement subsets of a pool) solved by the real solver in several build configurations; exact re-evaluation of every statement on the reported solution",
                 text="Every subset of <=3 statements from a pool of relations, boolean combinations and disjunction statements over two reals and "
